@@ -38,6 +38,10 @@ fn compile_twice(prog: &'static [u8], kind: &str, engine: &str, helpers: &[i64])
 pub fn run_compile_record(rec: &Value) -> Value {
     let prog: &'static [u8] = Box::leak(prog_bytes(&rec["prog"]).into_boxed_slice());
     let mut obs = Vec::new();
+    // the antecedent of C12 is the REAL verifier's verdict
+    if matches!(std::panic::catch_unwind(|| Vm::new("raw", Some(prog), (0, 8)).is_err()), Ok(true)) {
+        return json!({"obs": [], "rejected": true});
+    }
     for (idx, (engine, hs)) in [("jit", vec![]), ("jit", vec![1i64]), ("cl", vec![]), ("cl", vec![1i64])].iter().enumerate() {
         let kinds: &[&str] = if *engine == "jit" { &["raw", "nodata", "mbuff", "fixed"] } else { &["raw"] };
         for kind in kinds {
@@ -51,13 +55,21 @@ pub fn run_compile_record(rec: &Value) -> Value {
 pub fn judge_compile_record(rec: &Value, o: &Value) -> Vec<String> {
     let mut bad = Vec::new();
     let exp = arr(&rec["compile"]);
+    // the specification refuses the program but the real verifier accepted it (that disagreement
+    // is C06's): there is no specified Ok/Err, the compilers must still not panic
+    let unspecified = rec["accept"] != json!(true);
     for ob in arr(&o["obs"]) {
-        let want = if exp[ob["slot"].as_u64().unwrap() as usize].as_bool().unwrap() { "ok" } else { "err" };
         let tag = format!("{} on {} with helpers {}", ob["engine"], ob["vm"], ob["helpers"]);
         let (r1, r2) = (ob["res"].as_str().unwrap(), ob["res2"].as_str().unwrap());
         if r1.starts_with("panic") || r2.starts_with("panic") {
-            bad.push(format!("{tag}: compilation panicked: {r1}"));
-        } else if r1 != want || r2 != want {
+            bad.push(format!("{tag}: compilation of a program the verifier accepted panicked: {r1}"));
+            continue;
+        }
+        if unspecified || r1 == "rejected" {
+            continue;
+        }
+        let want = if exp[ob["slot"].as_u64().unwrap() as usize].as_bool().unwrap() { "ok" } else { "err" };
+        if r1 != want || r2 != want {
             bad.push(format!("{tag}: compilation returned {r1}/{r2}, the contract says {want}"));
         } else if ob["engine"] == "jit" && want == "ok" {
             let s = arr(&ob["sizes"]);
